@@ -178,7 +178,7 @@ def standin_typeddiff(prop, tier, seed, scratch, root):
     row = {'function': 'Command::response of status, stats, count (plain/grouped), list (plain, 1 and 2 grouping levels), listplaylists, sticker get/list/find, channels, readmessages, tagtypes, replay_gain_status, update, '
                        'playlistinfo, currentsong, listallinfo, find, listplaylistinfo (responses/*.rs, commands/definitions.rs)',
            'engine': 'native differential run: abstract reply generated, encoded as MPD writes it, decoded by the real code, compared with the abstract reply (replay/src/bin/typed_diff.rs)',
-           'label': 'bounded', 'cases': per * workers * 8, 'violations': []}
+           'label': 'bounded', 'cases': per * workers * 9, 'violations': []}
     RP.build(scratch)
     def one(k):
         return RP.run_bin('typed_diff', scratch, ['search', str(base + k * per), str(per)], timeout=3000)
@@ -186,12 +186,12 @@ def standin_typeddiff(prop, tier, seed, scratch, root):
         rs = list(ex.map(one, range(workers)))
     if not all(r.get('ran') for r in rs):
         row['undecided'] = next(r for r in rs if not r.get('ran')).get('reason', 'did not run'); return row
-    row['bound'] = ('%d seeds x 8 reply kinds (seeds %d..%d): every optional-field subset and field order permutation of status/stats, boundary numbers, all enum spellings, legacy time vs duration, '
+    row['bound'] = ('%d seeds x 9 reply kinds (seeds %d..%d): status replies with ONE out-of-domain value (must be an error); every optional-field subset and field order permutation of status/stats, boundary numbers, all enum spellings, legacy time vs duration, '
                     'sticker values containing "=", grouped output with repeated and changing group keys, listings of <= 4 songs with <= 4 tag lines each, any attribute order, interleaved directory / playlist entries, '
                     'Time vs duration in either order; built WITHOUT the chrono feature' % (per * workers, base, base + per * workers - 1))
     bad = [r for r in rs if r['fails']]
     if not bad:
-        row['result'] = 'agree'; row['distinct_nontrivial'] = per * workers * 8
+        row['result'] = 'agree'; row['distinct_nontrivial'] = per * workers * 9
         return row
     try:
         j = json.loads(bad[0].get('full_output', bad[0]['output']).strip().split('\n')[-1])
